@@ -34,6 +34,25 @@ STRENGTHENED = {
     "C17c": "the same hostile condition delivered repeatedly in one process",
     "C17d": "configuration files that are not JSON but are valid Python",
     "C18c": "symlink loops / dangling links in the generated trees",
+    "C01e": "string zoo in C01 (lone surrogates sent as escapes, NUL, separators, non-BMP, long)",
+    "C02e": "separator/case-fold character zoo in generated text (FF, VT, FS..RS, NEL, LS, PS, dotted I, "
+            "long s, Kelvin sign)",
+    "C02f": "the driver numbers document versions as a conforming client does (restart at every didOpen)",
+    "C03e": "case-fold twin corruption of letters in C03 texts",
+    "C09e": "continuation-line edits ('name &') and positions in column 0 / leading blanks of continuation lines",
+    "C09f": "file-system clock seam (fine/coarse/frozen stamps) + same-size rewrites (C09) / reorder operator (C10)",
+    "C10e": "programs without PROGRAM statement, names reaching a program only through a used module",
+    "C15e": "types local to a submodule that extend a type of the parent module",
+    "C15f": "shadowing: procedure-local USE ... ONLY of a name the host module also defines",
+    "C16e": "normalisation- and case-folding-sensitive file names",
+    "C17f": "enumerated hostile values (factory specs, handler descriptions, paths, code) for every option the "
+            "tree under test knows, one per configuration file",
+    "C18e": "decoy command-line value for options the configuration file sets (C19 saw it as it stood)",
+    "C19e": "configuration file location as a dimension (-c other name / sub-directory / outside the root)",
+    "C19f": "whole battery repeated after a re-parse inside the server process; hover positions on declarations "
+            "with out-of-order attributes",
+    "C20e": "rho tails for the submodule shapes",
+    "C20f": "member-access chains through names that are no components, on cyclic types",
 }
 STRENGTHENED.update(json.load(open(os.path.join(VERIF, "seeded", "strengthened.json")))
                     if os.path.exists(os.path.join(VERIF, "seeded", "strengthened.json")) else {})
